@@ -241,6 +241,10 @@ func TestVerif_C04_LayerMachine(t *testing.T) {
 			case "rr":
 				loss := uint8(rapid.SampledFrom([]int{0, 1, 4, 5, 25, 26, 100, 200, 255}).Draw(t, "loss"))
 				n := rapid.IntRange(1, 40).Draw(t, "nrr")
+				if rapid.IntRange(0, 5).Draw(t, "longStreak") == 0 {
+					// long enough for the multiplicative increase (x1.05) or decrease to run into either bound
+					n = rapid.IntRange(150, 400).Draw(t, "nrrLong")
+				}
 				for k := 0; k < n; k++ {
 					handleReport(down, rtcp.ReceptionReport{SSRC: capSSRC, FractionLost: loss, Jitter: 10}, rtptime.Jiffies())
 				}
